@@ -16,6 +16,8 @@ def make_model(rng, kind, level):
         n = int(kind[6:]); radii = [1.0]
         for _ in range(n - 1): radii.insert(0, radii[0] * rng.uniform(0.6, 0.9))
         return models.nested(radii, [sig(rng) for _ in range(n)], level), True
+    if kind == "split0z":   # ball cut by a disc, SOUTH and Air non-conductive: `south` is excluded and shares the equator rim with `north` and `cut`
+        return models.split_hemispheres(1.0, [], (sig(rng), 0.0), [], level), False
     if kind.startswith("split"):
         k = int(kind[5:]); ro = [1.0 * (1.2 ** (i + 1)) for i in range(k)]
         return models.split_hemispheres(1.0, ro, (sig(rng), sig(rng)), [sig(rng) for _ in range(k)], level), False
@@ -31,7 +33,7 @@ def make_model(rng, kind, level):
         m = models.nested([0.4, 0.6, 0.8, 1.0], [sig(rng), 0.0, 0.0, sig(rng)], level); return m, True
     raise ValueError(kind)
 
-KINDS = ["nested1", "nested2", "nested3", "nested4", "split0", "split1", "split2", "siblings", "hole", "hole+blob", "shell0", "shell00"]
+KINDS = ["nested1", "nested2", "nested3", "nested4", "split0", "split0z", "split1", "split2", "siblings", "hole", "hole+blob", "shell0", "shell00"]
 
 # ---------------------------------------------------------------- comparison
 def packed(n, i, j):
@@ -98,6 +100,8 @@ def assemble_cases(ck, hb, specs, ids):
     mcases = []; keep = []
     for k, line in zip(ids, io):
         zi, fi = core.fparse(line)
+        if zi is not None and zi and zi[0] == 1 and len(zi) > 4:      # HeadMat hit an om_assert: the indexed geometry is still there
+            res.append(dict(id=k, status="impl-error", line="om_assert in HeadMat", shape=zi[1:-1])); continue
         if zi is None or not zi or zi[0] != 0:
             res.append(dict(id=k, status="impl-error", line=line[:200])); continue
         n = zi[-1]; shape = zi[1:-1]; nh = n * (n + 1) // 2
@@ -112,6 +116,19 @@ def assemble_cases(ck, hb, specs, ids):
         zm, fm = core.fparse(mline)
         res[idx] = dict(id=k, shape=shape, H=H, n=n, mz=zm, mf=fm, status="ok")
     return res
+
+def invalid_vertices_of_participating_meshes(z):
+    """(mesh, vertex, index) for vertices of non-isolated meshes whose unknown index is not a row of the head matrix"""
+    p = 0; nv = z[p]; p += 1; vix = z[p:p + nv]; p += nv
+    nm = z[p]; p += 1; meshes = []
+    for m in range(nm):
+        nvm = z[p]; vs = z[p + 1:p + 1 + nvm]; p += 1 + nvm; nt = z[p]; p += 1 + 4 * nt
+        fl = z[p:p + 3]; p += 3; meshes.append((vs, fl))
+    npairs = z[p]; p += 1 + 3 * npairs
+    nparts = z[p]; p += 1
+    for _ in range(nparts): p += 1 + z[p]
+    dim = z[p] - z[p + 1]
+    return [(m, v, vix[v]) for m, (vs, fl) in enumerate(meshes) if not fl[2] for v in vs if not (0 <= vix[v] < dim)], dim
 
 def shape_summary(z):
     p = 0; nv = z[p]; p += 1; vix = z[p:p + nv]; p += nv
@@ -160,11 +177,22 @@ def main(replay=None):
     for r in res:
         kind, level, old, seed = specs[r["id"]]
         dist["%s/L%d/%s" % (kind, level, "old" if old else "new")] = dist.get("%s/L%d/%s" % (kind, level, "old" if old else "new"), 0) + 1
+        if r["status"] != "ok" and r.get("shape"):
+            badv, dimz = invalid_vertices_of_participating_meshes(r["shape"])
+            if badv:
+                ck.violation("indices: vertex of a participating mesh without a row (%s)" % kind,
+                             "%s: HeadMat fails with an om_assert; %d vertices of meshes that take part in the computation have no valid unknown index (first: mesh %d vertex %d index %d, dimension nb_parameters-nb_current_barrier_triangles = %d); theorem participating_mesh_vertices_have_rows" % (kind, len(badv), badv[0][0], badv[0][1], badv[0][2], dimz),
+                             dict(kind="indices", specs=[specs[r["id"]]], bad=badv[:10]))
         if r["status"] != "ok":
             ck.violation("assembly: implementation failed on %s" % kind, "HeadMat threw on a valid generated model (%s): %s" % (kind, r.get("line")),
                          dict(kind="correspondence", specs=[specs[r["id"]]]))
             continue
         summ = shape_summary(r["shape"])
+        badv, dimz = invalid_vertices_of_participating_meshes(r["shape"])
+        if badv:
+            ck.violation("indices: vertex of a participating mesh without a row (%s)" % kind,
+                         "%s: %d vertices of meshes that take part in the computation have no valid unknown index (first: mesh %d vertex %d index %d, dimension %d); theorem participating_mesh_vertices_have_rows" % (kind, len(badv), badv[0][0], badv[0][1], badv[0][2], dimz),
+                         dict(kind="indices", specs=[specs[r["id"]]], bad=badv[:10]))
         # hypothesis of deflate_applied_to_every_conductive_component, checked on the real bookkeeping
         for km, mm in enumerate(summ["meshes"]):
             if mm["outer"] and not mm["isolated"] and not any(km in part for part in summ["parts"]):
